@@ -268,6 +268,23 @@ func (v *VerifCtl) Apply(kindName, key string, obj interface{}) (evs []VEvent, w
 		return nil, nil, verr, err
 	}
 	old, existed, _ := s.GetByKey(key)
+	// the API server keeps the status across a spec update of the same object
+	if existed && obj != nil {
+		switch n := obj.(type) {
+		case *conf_v1.VirtualServer:
+			if o := old.(*conf_v1.VirtualServer); o.UID == n.UID {
+				n.Status = *o.Status.DeepCopy()
+			}
+		case *conf_v1.VirtualServerRoute:
+			if o := old.(*conf_v1.VirtualServerRoute); o.UID == n.UID {
+				n.Status = *o.Status.DeepCopy()
+			}
+		case *conf_v1.TransportServer:
+			if o := old.(*conf_v1.TransportServer); o.UID == n.UID {
+				n.Status = *o.Status.DeepCopy()
+			}
+		}
+	}
 	v.LastProbe = v.probe(kindName, key, old, existed, obj)
 	verrText := v.validationErrorText(obj)
 	if obj != nil {
